@@ -31,25 +31,27 @@ Section Proofs.
   Notation to_lossy_string := (to_lossy_string dec).
 
   (* ---- pure ASCII passes through byte for byte ---- *)
-  Lemma enc_from_ascii cur s : forallb is_ascii s = true -> enc_from cur s = s.
+  Lemma enc_from_ascii s : forall cur after, forallb is_ascii s = true -> enc_from cur after s = s.
   Proof.
-    induction s as [|c t IH]; cbn [forallb Codepage.enc_from]; [reflexivity|].
-    intros H. apply andb_prop in H as [Hc Ht]. rewrite Hc, (IH Ht). reflexivity.
+    induction s as [|c t IH]; intros cur after; cbn [forallb Codepage.enc_from]; [reflexivity|].
+    intros H. apply andb_prop in H as [Hc Ht]. rewrite Hc, (IH _ _ Ht). reflexivity.
   Qed.
   Theorem ascii_passthrough_bytes s : forallb is_ascii s = true -> to_lossy_bytes s = s.
   Proof. intros H. unfold Codepage.to_lossy_bytes. rewrite H. reflexivity. Qed.
 
   (* the fast path is not observable *)
-  Theorem to_lossy_bytes_is_enc_from s : to_lossy_bytes s = enc_from gen_default_codepage s.
+  Theorem to_lossy_bytes_is_enc_from s : to_lossy_bytes s = enc_from gen_default_codepage false s.
   Proof.
     unfold Codepage.to_lossy_bytes. destruct (forallb is_ascii s) eqn:E; [|reflexivity].
     symmetry. apply enc_from_ascii. exact E.
   Qed.
 
   (* ---- a character no codepage has becomes '?', neighbours untouched ---- *)
-  Lemma enc_from_app cur a b : enc_from cur (a ++ b) = enc_from cur a ++ enc_from (state_after cur a) b.
+  Lemma enc_from_app a : forall cur after b,
+    enc_from cur after (a ++ b) =
+    enc_from cur after a ++ enc_from (fst (state_after cur after a)) (snd (state_after cur after a)) b.
   Proof.
-    revert cur. induction a as [|c t IH]; intros cur; cbn [app Codepage.enc_from Codepage.state_after]; [reflexivity|].
+    induction a as [|c t IH]; intros cur after b; cbn [app Codepage.enc_from Codepage.state_after fst snd]; [reflexivity|].
     destruct (is_ascii c); [rewrite IH; reflexivity|].
     destruct (enc cur c) as [w|]; [rewrite IH, app_assoc; reflexivity|].
     destruct (search enc gen_search_order cur c) as [[k w]|].
@@ -63,12 +65,17 @@ Section Proofs.
   Lemma search_none cands cur c : (forall l, enc l c = None) -> search enc cands cur c = None.
   Proof. intros H. induction cands as [|k t IH]; cbn [search]; [reflexivity|]. rewrite (H k). destruct (k =? cur); exact IH. Qed.
 
-  Theorem unrepresentable_is_qmark cur a c b : unrepresentable c ->
-    enc_from cur (a ++ c :: b) = enc_from cur a ++ qmark :: enc_from (state_after cur a) b /\
-    enc_from cur (a ++ b) = enc_from cur a ++ enc_from (state_after cur a) b.
+  (* the bytes produced for the neighbours a and b are the same with or without c between them
+     (when a does not end in a caret; a trailing caret belongs to a marker the text itself starts) *)
+  Theorem unrepresentable_is_qmark cur after a c b : unrepresentable c ->
+    enc_from cur after (a ++ c :: b) =
+      enc_from cur after a ++ qmark :: enc_from (fst (state_after cur after a)) false b /\
+    (snd (state_after cur after a) = false ->
+     enc_from cur after (a ++ b) = enc_from cur after a ++ enc_from (fst (state_after cur after a)) false b).
   Proof.
-    intros [Hna Hno]. split; [|apply enc_from_app].
-    rewrite enc_from_app. f_equal. cbn [Codepage.enc_from]. rewrite Hna, (Hno _), (search_none _ _ _ Hno). reflexivity.
+    intros [Hna Hno]. split.
+    - rewrite enc_from_app. f_equal. cbn [Codepage.enc_from]. rewrite Hna, (Hno _), (search_none _ _ _ Hno). reflexivity.
+    - intros Hs. rewrite enc_from_app, Hs. reflexivity.
   Qed.
 
   (* ---- decoding text without marker pairs is one decode in the default codepage ---- *)
